@@ -38,6 +38,25 @@ def classify(e: BaseException) -> str:
     return "other:" + type(e).__name__
 
 
+def _feeds(root: dict, a: str, b: str) -> bool:
+    """Does node a (transitively, through data) feed node b in this graph?"""
+    outs = {n["name"]: set(n.get("dataOuts", [])) for n in root["nodes"]}
+    ins = {}
+    for n in root["nodes"]:
+        ren = dict(n.get("inRen", []))
+        ins[n["name"]] = {ren.get(q[0], q[0]) for q in n.get("params", [])}
+    seen, work = {a}, [a]
+    while work:
+        x = work.pop()
+        for y in ins:
+            if y not in seen and outs.get(x, set()) & ins[y]:
+                if y == b:
+                    return True
+                seen.add(y)
+                work.append(y)
+    return False
+
+
 def _entry_groups(root: dict, entry_nodes: list[str]) -> list[list[str]]:
     """Entry-point nodes grouped by the data cycle they lie on (order of first appearance)."""
     import networkx as nx
@@ -110,7 +129,12 @@ class C08(Prop):
                 ops["select"] = root["selected"]
             non_gates = [n["name"] for n in root["nodes"] if n["kind"] not in ("route", "ifelse")]
             if non_gates and rng.random() < 0.3:
-                root["entrypoints"] = rng.sample(non_gates, rng.randint(1, min(2, len(non_gates))))
+                eps = rng.sample(non_gates, rng.randint(1, min(2, len(non_gates))))
+                if len(eps) == 2 and (_feeds(root, eps[0], eps[1]) or _feeds(root, eps[1], eps[0])):
+                    # one entry point feeding another: the fed one's input is reported as required AND supplying it by-passes the
+                    # feeding one, whose own inputs are then not demanded (known finding C08-F1, exact input in findings/); kept out
+                    eps = eps[:1]
+                root["entrypoints"] = eps
                 ops["entrypoints"] = root["entrypoints"]
             rtsel = None
             if outs and rng.random() < 0.3:
